@@ -437,6 +437,9 @@ def parse_email(data: bytes | str) -> tuple[RawMetadata, dict[str, list[str]]]:
     try:
         payload = _get_payload(parsed, data)
     except ValueError:
+        # As below: a Description header next to an unusable body is ambiguous.
+        if "description" in raw:
+            unparsed.setdefault("description", []).append(raw.pop("description"))
         unparsed.setdefault("description", []).append(
             parsed.get_payload(decode=isinstance(data, bytes))  # type: ignore[call-overload]
         )
